@@ -97,6 +97,8 @@ class ChannelHook:
 
     def on_call(self, eng, qual=None, args=None, kwargs=None, node=None, frame=None):
         name = qual.split(".")[-1]
+        if name == "received" and qual.split(".")[0] == "channel":
+            eng.state.ghost["received_called"] = True
         if eng.role == "W" and name in self.TEARDOWN and qual.split(".")[0] in ("channel", "wasyncore"):
             eng.oblige("%s/R4:no-teardown-on-worker:%s" % (eng.cur_func, name), z3.BoolVal(False),
                        clause="a worker never calls %s (socket map / descriptors change only on the I/O thread)" % name, kind="discipline")
@@ -213,9 +215,22 @@ def install(reg):
                  ("no-teardown-no-change", "implies(self.connected == old(self.connected), self.total_outbufs_len == old(self.total_outbufs_len) or (not self.connected and self.total_outbufs_len == 0 and result == 0))")],
         ensures_exc=[("raise-has-no-side-effect", "self.connected == old(self.connected) and self.total_outbufs_len == old(self.total_outbufs_len)")],
         modifies=["self.connected", "self.total_outbufs_len"], cls=CH, check_invariant=False))
+    # reading (I/O thread only): end of stream and disconnect errors tear the channel down here, other socket errors reach handle_read,
+    # which closes; nothing escapes handle_read except what received() lets through (an OSError from the interim-response flush)
+    reg.add(FuncContract("wasyncore.dispatcher.recv", params={"buffer_size": Int}, returns=Bytes, requires=[("io", "role_is('IO')")], raises=["OSError"],
+        ensures=[("C13-end-of-stream-closes", "implies(len(result) == 0, not self.connected and self.total_outbufs_len == 0)"),
+                 ("data-leaves-the-channel-alone", "implies(len(result) > 0, self.connected == old(self.connected) and self.total_outbufs_len == old(self.total_outbufs_len))")],
+        ensures_exc=[("raise-has-no-side-effect", "self.connected == old(self.connected) and self.total_outbufs_len == old(self.total_outbufs_len)")],
+        modifies=["self.connected", "self.total_outbufs_len"], cls=CH, check_invariant=False))
+    reg.add(FuncContract(CH + ".handle_read", requires=[("io", "role_is('IO')")], raises=["OSError"], setup=alias,
+        ensures=[("C13-read-error-or-end-of-stream-disconnects", "implies(not received_called(), not self.connected)")],
+        modifies=["self.connected", "self.total_outbufs_len", "self.last_activity", "self.outbufs", "self.current_outbuf_count", "self.requests", "self.request",
+                  "self.sent_continue"], check_invariant=False))
     # teardown on the I/O thread: under outbuf_lock it drops the backlog, clears `connected` and wakes a producer that is paused on the
     # watermark (whatever the backlog was: a paused producer must always learn that the client is gone); then the descriptor is closed
     reg.add(FuncContract("wasyncore.dispatcher.close", raises=["OSError"], modifies=[], cls=CH, check_invariant=False))
+    # on a worker do_close is false (R4), so the teardown branch of send() is dead there: that IS the role frame
+    reg.funcs["wasyncore.dispatcher.send"].unreachable_ok_by_role = {"W": ("self.handle_close()",)}
     reg.add(FuncContract(CH + ".handle_close", requires=[("io", "role_is('IO')")], raises=["OSError"], setup=alias,
         ensures=[("disconnected", "not self.connected"), ("zero", "self.total_outbufs_len == 0"),
                  ("W5-close-wakes-a-paused-producer", "notified('outbuf_lock')")],
@@ -311,6 +326,7 @@ def install_service(reg):
         ensures=[("channel-keeps-an-outbuf", "len(self.channel.outbufs) >= 1"), ("error-response-closes", "self.close_on_finish")],
         ensures_exc=[("channel-keeps-an-outbuf", "len(self.channel.outbufs) >= 1")]))
     reg.spec_funcs["popped"] = ghost_flag("popped_request")
+    reg.spec_funcs["received_called"] = ghost_flag("received_called")
     reg.add(FuncContract(CH + ".service", raises=[], setup=alias,
         requires=[("worker", "role_is('W')"), ("owns-connection", "len(self.requests) >= 1")],
         rely=[("token-stable-until-this-worker-pops", "len(self.requests) >= 1 or popped()")],
@@ -325,7 +341,9 @@ def install_service(reg):
                                        ("C11-no-close-decision-while-parsing", "not self.close_when_flushed and not self.will_close"),
                                        ("C19-no-completed-request-left-pending", "implies(self.request is not None, not self.request.completed)"),
                                        REQ_INV[1]] + OUT_INV,
-                           modifies=["self.total_outbufs_len", "self.connected", "self.last_activity", "self.outbufs", "self.current_outbuf_count"])}))
+                           modifies=["self.total_outbufs_len", "self.connected", "self.last_activity", "self.outbufs", "self.current_outbuf_count"])},
+        modifies=["self.total_outbufs_len", "self.connected", "self.last_activity", "self.outbufs", "self.current_outbuf_count", "self.requests", "self.request",
+                  "self.sent_continue"]))
 
 
 def registered(eng):
@@ -343,7 +361,11 @@ def install_ctor(reg):
     SOCK = "model.Sock"
     reg.spec_funcs["registered"] = registered
     reg.add_class(ClassSpec(SOCK, fields={}, env_methods={
-        "getsockopt": EnvSpec(returns=Int, raises=["OSError"]), "setblocking": EnvSpec(returns=None, raises=["OSError"]), "fileno": EnvSpec(returns=Int)}))
+        "getsockopt": EnvSpec(returns=Int, raises=["OSError"]), "setblocking": EnvSpec(returns=None, raises=["OSError"]), "fileno": EnvSpec(returns=Int),
+        # the kernel accepts any prefix of the data or fails with an arbitrary errno
+        "send": EnvSpec(returns=Int, raises=["OSError"], params=["data"], ensures=["0 <= result <= len(data)"]),
+        "recv": EnvSpec(returns=Bytes, raises=["OSError"], params=["buffer_size"])}))
+    reg.classes[CH].fields["socket"] = Obj(SOCK)
     reg.classes[SERVER].fields["active_channels"] = Opaque("active_channels")
     reg.inline.update({"wasyncore.dispatcher.__init__", "wasyncore.dispatcher.set_socket", "wasyncore.dispatcher.add_channel", CH + ".add_channel"})
     reg.add(FuncContract(CH + ".__init__", params={"server": Obj(SERVER), "sock": Obj(SOCK), "addr": Opaque("addr"), "adj": Obj("adjustments.Adjustments"), "map": Opaque("socketmap")},
